@@ -126,9 +126,27 @@ def tie_rep_codes(ctx):
     return len(lines)
 
 
+def tie_entropy(ctx):
+    """function-level ties of the encoder-side models behind the entropy round-trip theorems (bits_roundtrip, fse_roundtrip, huf_roundtrip):
+    BitW == bitstream.h writer, FSE.buildCTable / encodeAll == FSE_buildCTable_wksp / FSE_encodeSymbol, FSE.buildCells == FSE_buildDTable_wksp,
+    HufEnc.codesOf / encode1 / layout4 == HUF_buildCTable / HUF_readCTable / HUF_compress1X / 4X; the decidable hypotheses of the theorems
+    (spreadOK, spreadEnc = spread, weightsOK) are evaluated by the driver on every table and the model re-decodes its own streams"""
+    import ent_bitw, ent_fse, ent_huf
+    out = {}
+    for name, mod in (("bitw", ent_bitw), ("fse", ent_fse), ("huf", ent_huf)):
+        before = len(ctx.violations)
+        r = mod.run(ctx)
+        out[name] = r.get("evaluations", 0)
+        for v in ctx.violations[before:]:
+            v["no_input"] = False
+            v["replay"] = dict(v.get("replay") or {}, ent=name)
+    return out
+
+
 def correspondence(ctx):
     exe = frames.harness()
     ntie = tie_rep_codes(ctx)
+    ent = tie_entropy(ctx)
     n = 1500 if ctx.quick() else 30000
     maxsize = 262144 if ctx.quick() else 4 << 20
     cases = run(ctx, gen_cases(ctx, n, maxsize), exe)
@@ -175,10 +193,25 @@ def correspondence(ctx):
                      "single-call entry points {compress2, compress, compressCCtx, compress_advanced, usingDict, usingCDict}; non-trivial = input > 64 bytes, round-tripped and independently decoded; distinct by (input hash, params, api)",
                 samples=[dict(api=c["api"], params=frames.pstr(c["p"]), kind=c["kind"], size=len(c["x"]), frame_bytes=len(c["frame"]) // 2, conform=c["conform"][:80]) for c in cases[:3]],
                 input_kinds=kinds, apis=apis, size_histogram=sizes, decoder_features_hit=[covnames[i] for i in range(len(covnames)) if cov >> i & 1 and covnames[i]],
-                decoder_features_missed=[covnames[i] for i in range(len(covnames)) if not (cov >> i & 1) and covnames[i]], params_rejected_by_setter=rejected_params)
+                decoder_features_missed=[covnames[i] for i in range(len(covnames)) if not (cov >> i & 1) and covnames[i]], params_rejected_by_setter=rejected_params,
+                entropy_model_ties=ent, rep_code_ties=ntie)
 
 
 def replay(ctx, data):
+    if data.get("ent"):
+        # a function-level tie of an encoder-side model: re-run that tie (same seed => same operations) and report whether it still differs
+        import ent_bitw, ent_fse, ent_huf
+        mod = dict(bitw=ent_bitw, fse=ent_fse, huf=ent_huf)[data["ent"]]
+        if hasattr(mod, "replay") and data.get("op"):
+            return mod.replay(ctx, data)
+        ctx.rng = zv.Rng(int(data.get("seed", 1)) * 1000003 + sum(map(ord, "C01")))
+        tie_rep_codes(ctx)        # consumes the generator exactly as the check did before reaching the entropy ties
+        before = len(ctx.violations)
+        for name, m in (("bitw", ent_bitw), ("fse", ent_fse), ("huf", ent_huf)):
+            m.run(ctx)
+            if name == data["ent"]:
+                break
+        return dict(violates=len(ctx.violations) > before, violations=[v["desc"][:300] for v in ctx.violations[before:]][:5])
     exe = frames.harness()
     x = bytes.fromhex(data["input_hex"]) if data.get("input_hex", "-") != "-" else b""
     d = bytes.fromhex(data["dict_hex"]) if data.get("dict_hex", "-") != "-" else b""
